@@ -12,7 +12,7 @@ def run(rep, tier):
     n = rep.scale(n)
     agg = runner.correspondence(rep, prop=PROP, mod_name="harness.buildersim", legal_only=True, driver_kind="builder", ncases=n,
                                 nontrivial=lambda r: r["stats"]["explicit"] >= 1 and r["stats"]["scoped"] >= 1 and r["stats"]["regs_placed"] >= 2,
-                                sample_fmt=lambda r: {"program": r["lines"][:12], "answers": r["obs"][:11]})
+                                sample_fmt=lambda r: {"program": r["lines"][:12], "answers": r["obs"][:11]}, opt_sample=64)
     rep.coverage.update(agg)
     # ---- bounded-exhaustive validation (support for the tie, not a proof): EVERY builder program of k operations
     from .. import buildersim
